@@ -22,6 +22,9 @@ COMPONENTS = [
      ['mpmc_ring_buffer.h'], 'OrdersMpmc', 'MCMpmcHB.tla',
      [('MC_hb1.cfg', 'MpmcRingBuffer 2P+2C cap 2: push, batch, pop, pop->OpResult', 'quick'),
       ('MC_hb2.cfg', 'MpmcRingBuffer 1P+2C: push/emplace, pop/pop_into, mixed', 'quick')]),
+    ('event', 'spec/event', ['Event.tla', 'TimedWaitProps.tla', 'EventHB.tla', 'MCEventHB.tla', 'MC_hb.cfg'],
+     ['latch.h', 'detail/completion_event_impl.h'], 'OrdersEvent', 'MCEventHB.tla',
+     [('MC_hb.cfg', 'CompletionEvent notify/wait/waitFor and Latch count_down/arrive_and_wait/wait/try_wait publishing data', 'quick')]),
 ]
 LITMUS_CLEAN = ['clean_relacq', 'clean_seqcst', 'clean_rmw']
 LITMUS_RACY = ['racy_wrelaxed', 'racy_rrelaxed', 'racy_rmwrelaxed', 'racy_broken_relseq']
@@ -62,6 +65,7 @@ def run(ctx):
                                        % (comp, label, r.violation, extracted[comp], r.counterexample()))
                 ctx.violation('model:%s:%s:%s' % (comp, cfg, r.violation), WHAT + ' [' + label + ']: ' + r.violation, path)
     ctx.sample({'extracted_orders_mpmc': extracted.get('mpmc', '')[:3000]})
+    ctx.sample({'extracted_orders_event': extracted.get('event', '')[:2000]})
     ctx.cov['components'] = [c[0] for c in COMPONENTS]
     ctx.cov['litmus'] = LITMUS_CLEAN + LITMUS_RACY
     ctx.cov['traces_validated_against_impl'] = 0
